@@ -28,23 +28,31 @@ DRIVER = "dm_sched"
 LEAN_MODULES = ["DaskModel.Props.C05"]
 CASE_TIMEOUT_S = 30
 LEVEL_TEXT = (
-    "Lean 4 theorems (a) over a model of dask/callbacks.py as repaired by /repo commit 64c9a31: for EVERY "
-    "well-bracketed program of nested `with cb:` / `with add_callbacks(...)` blocks, register/unregister and "
-    "scheduler calls, with the same or different callback objects and any nesting depth, a callback that was "
-    "active before a block (enclosing context or earlier register()) is active after it unless the block "
-    "unregisters it (exit_preserves_outer), nothing stays active except what the block registered and every "
-    "Callback object finds its stack of managers as it left it (exit_restores, block_is_neutral), callbacks given "
-    "to a block are seen by scheduler calls inside it (with_activates, with_obj_activates), a scheduler call leaves "
-    "Callback.active untouched (get_restores_active); (b) over the get_async model: the event sequence every active "
-    "callback sees is start, start_state, (pretask|posttask)*, finish with one pretask and at most one posttask per "
-    "executed key (exactly one on success), finish last and once with failed=true iff the call does not return "
-    "normally, for every completion order (protocol_order). Flat, also ill-bracketed, histories are validated by "
-    "correspondence only.")
+    "Lean 4 theorems (a) over a model of dask/callbacks.py as repaired by /repo commits 64c9a31 and 82d054d (building, "
+    "entering and leaving an add_callbacks object are separate operations): for EVERY well-bracketed program of nested "
+    "`with cb:` / `with add_callbacks(...)` / `with h:` blocks (h a manager object built earlier: entered later than "
+    "built, several times, inside itself), register/unregister and scheduler calls, with the same or different callback "
+    "objects and any nesting depth, a callback that was active before a block (enclosing context or earlier register()) "
+    "is active after it unless the block unregisters it (exit_preserves_outer), nothing stays active except what the "
+    "block registered and every Callback object and every manager object finds its stack as it left it (exit_restores, "
+    "block_is_neutral, via exec_stack), callbacks given to a block are seen by scheduler calls inside it "
+    "(with_activates, withH_activates, with_obj_activates), building a manager is inert (build_is_inert), a scheduler "
+    "call leaves Callback.active untouched (get_restores_active); for FLAT, also ill-bracketed, histories: an enter "
+    "pushes exactly what it newly activated and an exit deactivates exactly the popped entry (enterCm_spec, exitCm_spec), "
+    "hence whatever happens between an enter and the exit that pops its entry, that exit deactivates nothing that was "
+    "active before the enter (flat_exit_preserves, flat_exitObj_preserves); (b) over the get_async model: the event "
+    "sequence of a call is start, start_state, (pretask|posttask)*, finish with one pretask and at most one posttask per "
+    "executed key (exactly one on success), in every prefix a posttask only after its pretask, finish last and once with "
+    "failed=true iff the call does not return normally, for every completion order (protocol_order), and the same as seen "
+    "by ONE callback tuple with any subset of the five hooks (callback_sees_protocol, view_protocol). VALIDATED ONLY: the "
+    "flat machine and the structured exec vs the real classes (histories, real nested with-statements, Callback "
+    "subclasses, tuples with missing hooks), unpack_callbacks / normalize_callback / local_callbacks at function level.")
 LEVEL_NOTE = (
     "Not modelled: exceptions raised by user callbacks themselves (started_cbs bookkeeping), callbacks that mutate "
-    "Callback.active from inside a task, thread-safety of the class-level set. The order of pretask before "
-    "posttask for the same key is validated on the real event logs (the theorem gives the counts and "
-    "posttask-implies-pretask). Trusted: Lean kernel + standard axioms; the harness.")
+    "Callback.active from inside a task, thread-safety of the class-level set, which of several active callbacks is "
+    "called first. Review round: an add_callbacks object used a second time inside a context that had activated the "
+    "same callback deactivated it (real violation of the statement on the unchanged tree), repaired in /repo (82d054d). "
+    "Trusted: Lean kernel + standard axioms; the harness.")
 TECHNIQUE = "Lean 4 structural-induction proof over all well-bracketed callback programs + differential correspondence on operation histories"
 ASSUMPTIONS = ["callbacks do not raise and do not touch Callback.active themselves"]
 
@@ -108,6 +116,10 @@ class _World:
         def boom(x):
             raise ValueError("boom")
         dsk = {"a": 1, "b": (lambda x: x + 1, "a"), "c": ((boom if fail else (lambda x: x * 2)), "b"), "d": (lambda x, y: x + y, "b", "c")}
+        if fail == "missing":
+            # the graph lacks a dependency: start_state_from_dask raises after the start callbacks ran
+            from dask._task_spec import Task, TaskRef
+            dsk = {"d": Task("d", (lambda x: x), TaskRef("no-such-key"))}
         kw = {} if cbs is None else {"callbacks": [self.obj_of(c)._callback for c in cbs]}
         try:
             if how == "threaded":
@@ -117,8 +129,8 @@ class _World:
             failed = False
         except ValueError:
             failed = True
-        if failed != fail:
-            ctx.fail("scheduler call outcome unexpected", observed=failed, expected=fail)
+        if failed != bool(fail):
+            ctx.fail("scheduler call outcome unexpected", observed=failed, expected=bool(fail))
         used = []
         for t, evs in self.events.items():
             n = _protocol_oracle(ctx, t, evs, fail, self.hooks.get(t, HOOKS))
@@ -129,6 +141,14 @@ class _World:
 def _protocol_oracle(ctx, t, evs, fail, hooks=HOOKS):
     """events one callback (with the hooks `hooks`) saw during one scheduler call; returns how many times it was
     invoked (multiplicity)"""
+    if fail == "missing":
+        # the start state could not be built: the callback saw `start` (if it has the hook) and then `finish(failed=True)`
+        want = [e for e in (("start",), ("finish", True)) if e[0] in hooks]
+        n = max(1, sum(1 for e in evs if e[0] == (want[0][0] if want else "start")))
+        if sorted(evs) != sorted(want * n) or (n == 1 and evs != want):
+            ctx.fail("a call whose start state cannot be built: callbacks did not see exactly start, finish(failed=True)",
+                     observed=evs[:6], expected=want)
+        return n
     once = [k for k in ("start", "start_state", "finish") if k in hooks]
     if once:
         n = sum(1 for e in evs if e[0] == once[0])
@@ -262,12 +282,19 @@ def case_hist(ctx, inp):
                 for g in frames:
                     g["activated"].discard(op[1])
             elif kind == "get":
-                if sorted(set(used)) != before or len(used) != len(set(used)):
+                visible = before
+                if inp.get("fail") == "missing":
+                    # only `start` and `finish` fire in such a call: a tuple without both hooks sees nothing
+                    visible = [t for t in before if {"start", "finish"} & set(w.hooks.get(t, HOOKS))]
+                if sorted(set(used)) != visible or len(used) != len(set(used)):
                     ctx.fail("a scheduler call did not use exactly the active callbacks", observed=used, expected=before)
                 if after != before:
                     ctx.fail("a scheduler call changed Callback.active", observed=after, expected=before)
             elif kind == "getWith":
-                if used != sorted(op[1:]):
+                given = sorted(op[1:])
+                if inp.get("fail") == "missing":
+                    given = [t for t in given if {"start", "finish"} & set(w.hooks.get(t, HOOKS))]
+                if used != given:
                     ctx.fail("a scheduler call with callbacks=[...] did not use exactly those", observed=used, expected=sorted(op[1:]))
     finally:
         Callback.active.clear()
@@ -278,6 +305,10 @@ def case_hist(ctx, inp):
         else:
             mops.append(_enc_op(op))
     model = ctx.lean(Sym("cbrun"), *mops)
+    if inp.get("fail") == "missing":
+        # in such a call only `start` and `finish` fire: a tuple that has neither hook is used but sees nothing
+        model = [[m[0], m[1], [t for t in m[2] if {"start", "finish"} & set(w.hooks.get(t, HOOKS))]]
+                 if len(m) == 3 and isinstance(m[2], list) else m for m in model]
     ctx.eq("Callback.active / callbacks used after each operation", model, real)
     kinds = [o[0] for o in ops]
     # measured classes of histories
@@ -318,6 +349,8 @@ def case_hist(ctx, inp):
         ctx.branch("objects-sharing-a-tuple")
     if inp.get("fail"):
         ctx.branch("failing-call")
+    if inp.get("fail") == "missing" and any(k in ("get", "getWith") for k in kinds):
+        ctx.branch("call-whose-start-state-raises")
     if inp.get("flavour") == "subclass":
         ctx.branch("subclass-callbacks")
     if inp.get("hooks"):
@@ -403,6 +436,8 @@ def case_prog(ctx, inp):
     for c in reversed(inp.get("pre", [])):
         full = ["seq", ["register", c], full]
     model = ctx.lean(Sym("cbexec"), _enc_prog(full))
+    if inp.get("fail") == "missing" and model[0] == "ok":
+        model = [model[0], model[1], [[t for t in u if {"start", "finish"} & set(w.hooks.get(t, HOOKS))] for u in model[2]]]
     ctx.eq("well-bracketed program: active afterwards and callbacks used by every scheduler call", model, real)
     if real[0] == "ok":
         # the statement itself, on the real classes
@@ -618,7 +653,8 @@ def _gen_prog_input(rng):
         else:
             body = ["seq", builds, body]
     inp = {"n": n, "prog": body, "pre": [c for c in range(n) if rng.random() < 0.25], "mgrs": mgrs,
-           "how": rng.choice(["sync", "sync", "threaded"]), "fail": rng.random() < 0.15}
+           "how": rng.choice(["sync", "sync", "threaded"]),
+           "fail": rng.choice([False, False, False, False, False, False, False, True, "missing"])}
     if rng.random() < 0.25:
         inp["flavour"] = "subclass"
     if rng.random() < 0.25:
@@ -649,7 +685,8 @@ def generate(ctx):
     yield "hist", {"tup": [0], "ops": [["buildCm", 0, 0], ["enterObj", 0], ["enterCm", 0], ["exitCm", 0], ["get"], ["exitObj", 0], ["get"]]}
     for _ in range(ctx.n(500, 5000)):
         tup, ops = _gen_hist(rng, rng.randint(1, 4), rng.randint(1, 12))
-        inp = {"tup": tup, "ops": ops, "how": rng.choice(["sync", "sync", "threaded"]), "fail": rng.random() < 0.2}
+        inp = {"tup": tup, "ops": ops, "how": rng.choice(["sync", "sync", "threaded"]),
+               "fail": rng.choice([False, False, False, False, False, False, True, True, "missing"])}
         if len(set(tup)) == len(tup) and rng.random() < 0.25:
             inp["flavour"] = "subclass"
         if rng.random() < 0.25:
